@@ -2051,10 +2051,11 @@ def removeslash(
         if self.request.path.endswith("/"):
             if self.request.method in ("GET", "HEAD"):
                 uri = self.request.path.rstrip("/")
-                if uri.startswith("//"):
+                if uri.startswith(("//", "/\\")):
                     # A redirect to a path starting with two slashes would be
                     # protocol-relative (to another host); collapse them.
-                    uri = "/" + uri.lstrip("/")
+                    # Browsers treat a backslash like a slash in this position.
+                    uri = "/" + uri.lstrip("/\\")
                 if uri:  # don't try to redirect '/' to ''
                     if self.request.query:
                         uri += "?" + self.request.query
@@ -2084,10 +2085,11 @@ def addslash(
         if not self.request.path.endswith("/"):
             if self.request.method in ("GET", "HEAD"):
                 uri = self.request.path + "/"
-                if uri.startswith("//"):
+                if uri.startswith(("//", "/\\")):
                     # A redirect to a path starting with two slashes would be
                     # protocol-relative (to another host); collapse them.
-                    uri = "/" + uri.lstrip("/")
+                    # Browsers treat a backslash like a slash in this position.
+                    uri = "/" + uri.lstrip("/\\")
                 if self.request.query:
                     uri += "?" + self.request.query
                 self.redirect(uri, permanent=True)
@@ -3003,8 +3005,9 @@ class StaticFileHandler(RequestHandler):
             # but there is some prefix to the path that was already
             # trimmed by the routing
             if not self.request.path.endswith("/"):
-                if self.request.path.startswith("//"):
-                    # A redirect with two initial slashes is a "protocol-relative" URL.
+                if self.request.path.startswith(("//", "/\\")):
+                    # A redirect with two initial slashes is a "protocol-relative" URL
+                    # (browsers treat a backslash like a slash in this position).
                     # This means the next path segment is treated as a hostname instead
                     # of a part of the path, making this effectively an open redirect.
                     # Reject paths starting with two slashes to prevent this.
